@@ -93,8 +93,9 @@ def verifyCases (text : List Char) : Bool :=
 
 /-! ## attributes and `$default` propagation -/
 
-/-- An attribute *named* `enum_case` (whatever its back-end specifier: `ir_util.get_attribute`
-and `attribute_util.gather_default_attributes` look at the name only). -/
+/-- An attribute *named* `enum_case` with its back-end specifier.  Since the repair of
+`ir_util.get_attribute` / `attribute_util.gather_default_attributes` (look-ups honour the
+back end) only `(cpp)` ones count for the C++ back end. -/
 structure Attr where
   backEnd : List Char
   isDefault : Bool
@@ -103,8 +104,10 @@ deriving DecidableEq, Repr
 
 /-- `gather_default_attributes`: later `$default`s of one object override earlier ones and
 inherited ones. -/
+def Attr.isCpp (a : Attr) : Bool := a.backEnd == ['c', 'p', 'p']
+
 def gatherDefault (inherited : Option (List Char)) (attrs : List Attr) : Option (List Char) :=
-  attrs.foldl (fun acc a => if a.isDefault then some a.text else acc) inherited
+  attrs.foldl (fun acc a => if a.isDefault && a.isCpp then some a.text else acc) inherited
 
 /-- Defaults in force at an enum value; `levels` = the `enum_case` attributes of the module,
 the enclosing type definitions (outermost first) and the enum itself. -/
@@ -119,7 +122,7 @@ deriving DecidableEq, Repr
 /-- `_add_missing_enum_case_attribute_on_enum_value` followed by the lookup in
 `_get_enum_value_names`. -/
 def effectiveCase (valueAttrs : List Attr) (dflt : Option (List Char)) : Effective :=
-  match valueAttrs.filter (fun a => !a.isDefault) with
+  match valueAttrs.filter (fun a => !a.isDefault && a.isCpp) with
   | [] => match dflt with
     | none => .unset
     | some t => .cases t
@@ -254,9 +257,10 @@ def Def.namesDistinct (d : Def) : Bool :=
   | none => false               -- the duplicate-attribute assertion / KeyError: no header either
   | some ls => distinctLoop [] ls.flatten
 
-/-- `_verify_attribute_values`: every attribute named `enum_case` in reach of the enum. -/
+/-- `_verify_attribute_values`: every `(cpp)` attribute named `enum_case` in reach of the enum
+(attributes addressed to other back ends are that back end's business). -/
 def Def.attrsVerified (d : Def) : Bool :=
-  (d.levels.flatten ++ d.values.flatMap (·.attrs)).all (fun a => verifyCases a.text)
+  (d.levels.flatten ++ d.values.flatMap (·.attrs)).all (fun a => !a.isCpp || verifyCases a.text)
 
 /-- The enum-specific part of "the C++ back end accepts the module" (returns a header). -/
 def Def.backAccepts (d : Def) : Bool := d.attrsVerified && d.namesDistinct
